@@ -95,7 +95,7 @@ def main(argv):
         per_unit.append({'unit': r['unit'], 'status': r['status'], 'source': r['source'], 'functions_under_contract': r['functions'],
                          'callees_replaced_by_contract': r['replaced'], 'obligations': len(r['obligations']),
                          'discharged': sum(1 for o in r['obligations'] if o['status'] == 'SUCCESS'),
-                         'solver_s': r.get('solver_s', 0), 'reason': r['reason'], 'bounded': r.get('bounded', ''),
+                         'solver_s': r.get('solver_s', 0), 'peak_mb': r.get('peak_mb'), 'reason': r['reason'], 'bounded': r.get('bounded', ''),
                          'loops': r.get('weave', {}).get('functions', {}), 'checker_cmd': r.get('checker_cmd', '')})
         functions += r['functions']
         for a in r['assumptions']:
